@@ -691,6 +691,15 @@ func (c *client) loopWrite() {
 		switch c.filter.Do(req) {
 		case Continue:
 		case Stop:
+			// The filters have answered the request themselves, it is not written.
+			// Requests encoded before it may still sit in the buffer (they were not
+			// flushed because this one was waiting): flush them if nothing else follows.
+			if len(c.pendingReqs) == 0 {
+				if err = c.enc.Flush(); err != nil {
+					c.logger.Warnf("loop write exit: %v", err)
+					return
+				}
+			}
 			continue
 		}
 
